@@ -108,11 +108,40 @@ def gen_prime(rng, f, n):
                 b = b"\x00" * max(0, ln - 1) + (b"\x01" if ln else b"")
             else:
                 b = bytes(rng.choice([0, 0xff, 0x80, 0x7f, 1]) for _ in range(ln))
+            solved = False
+            if rng.randrange(5) == 0 and 8 * L == f.bits:
+                # solved multi-block input: choose the low block so that the folding of (high blocks)*2^w + low lands on a
+                # carry boundary: hi*c + lo = k*2^w + (2^w - delta) with delta chosen so that the second fold overflows 2^w
+                # and the wrapped low limb sits just below 2^64 (third fold must carry out of the low limb), or exactly on
+                # the overflow threshold.
+                w = f.bits
+                c = (1 << w) % q
+                nb = rng.choice([2, 2, 3])
+                hi = hostile_raw(rng, f) | (rng.choice([0, 1, 1]) << (w - 1)) | (rng.choice([0, 1]) << (w - 2))
+                if nb == 3:
+                    # the state after two blocks is some reduced-ish value; use a 2-block prefix and fold it ourselves
+                    hi2 = hostile_raw(rng, f)
+                    acc = (hi2 * (1 << w) + hi) % q
+                else:
+                    hi2 = None
+                    acc = hi
+                tt = acc * c
+                k = tt >> w
+                e = rng.choice([0, 1, 2, c - 1, c, c + 1, rng.randrange(1, 2 * c + 2)])
+                target = rng.choice([(1 << w) - 1, (1 << w) - k * c, (1 << w) - k * c - 1, (1 << w) - k * c + 1,
+                                     (1 << w) - k * c + (1 << 64) - 1 - e, (1 << w) - k * c + (1 << 64) - e, (1 << w) - k * c + (1 << 32) - 1 - (e % (1 << 32)),
+                                     (1 << w) - c, (1 << w) - 2 * c, q - 1 - (tt % (1 << w)) % 3])
+                lo = target - (tt & ((1 << w) - 1))
+                if 0 <= lo < (1 << w) and 0 < target < (1 << w):
+                    b = lo.to_bytes(L, "little") + hi.to_bytes(L, "little") + (hi2.to_bytes(L, "little") if hi2 is not None else b"")
+                    ln = len(b)
+                    solved = True
             v = int.from_bytes(b, "little")
             op = rng.choice(["decode_reduce", "set_decode_reduce"])
             cl = ["reduce:len%s" % ("=0" if ln == 0 else ("<L" if ln < L else ("=L" if ln == L else ("<=2L" if ln <= 2 * L else ">2L"))))]
             if t == 0: cl.append("reduce:all-ones")
             if t == 1: cl.append("reduce:blocks=q")
+            if solved: cl.append("reduce:solved-fold-boundary")
             out.append(case1(T + op + " " + (b.hex() or "-"), "OK " + f.enc(v), cl, kind))
         elif kind == "enc":
             x = hostile_raw(rng, f)
@@ -215,7 +244,7 @@ def main(argv):
         m = run_sharded("c05", "gen", (names, per // NCPU + 1, nbin // NCPU + 1), [(c, exes[c]) for c in cfgs], a.seed)
         rep.merge(m)
         rep.require("decode_ct:v=q", "decode_ct:v=q-1", "decode_ct:v=q+1", "decode_ct:all-ones", "decode_ct:len=L-1", "decode_ct:len=L+1",
-                    "decode_ct:len=0", "decode:v=q", "decode32:v>=q", "reduce:all-ones", "reduce:blocks=q", "reduce:len>2L", "reduce:len=0",
+                    "decode_ct:len=0", "decode:v=q", "decode32:v>=q", "reduce:all-ones", "reduce:blocks=q", "reduce:solved-fold-boundary", "reduce:len>2L", "reduce:len=0",
                     "enc:operand>=q", "roundtrip", "bdecode_ct:topbit-set")
     except Inconclusive as e:
         rep.incon.append(str(e))
